@@ -194,12 +194,12 @@ def make_middleware_chain(middlewares, endpoint, render, preprovided):
 _REQ_INNER_TMPL = \
 '''
 def process_request({all_args}):
-    __traceback_hide__ = True
-    context = endpoint({endpoint_args})
-    if isinstance(context, BaseResponse):
+    {hide_tb}
+    context = {endpoint}({endpoint_args})
+    if isinstance(context, {base_response}):
         resp = context
     else:
-        resp = render({render_args})
+        resp = {render}({render_args})
     return resp
 '''
 
@@ -214,9 +214,24 @@ def _create_request_inner(endpoint, render, all_args,
     ep_args_str = _named_arg_str(endpoint_args)
     rn_args_str = _named_arg_str(render_args)
 
+    # the generated function's own names must not collide with injectable names
+    taken = set(all_args) | set(endpoint_args) | set(render_args)
+    names = {}
+    for key in ('endpoint', 'render', 'BaseResponse'):
+        alias = key
+        while alias in taken:
+            alias = '_' + alias
+        taken.add(alias)
+        names[key] = alias
+    hide_tb = 'pass' if '__traceback_hide__' in taken else '__traceback_hide__ = True'
     code_str = _REQ_INNER_TMPL.format(all_args=all_args_str,
                                       endpoint_args=ep_args_str,
-                                      render_args=rn_args_str)
-    env = {'endpoint': endpoint, 'render': render, 'BaseResponse': BaseResponse}
+                                      render_args=rn_args_str,
+                                      hide_tb=hide_tb,
+                                      endpoint=names['endpoint'],
+                                      render=names['render'],
+                                      base_response=names['BaseResponse'])
+    env = {names['endpoint']: endpoint, names['render']: render,
+           names['BaseResponse']: BaseResponse}
 
     return compile_code(code_str, name='process_request', env=env)
